@@ -15,6 +15,15 @@
  *                          (skipped unless the slot has a live child)
  *           z<ss>          EOF on the pipe of slot ss (skipped unless the slot's child has been reaped by an earlier k and
  *                          the slot has not been reported yet: the spawner holds a write end until the handler has run)
+ *           y<ss>          the live child of slot ss closes its own copies of the pipe's write end (its descriptors 1 and 2)
+ *                          and goes on running.  The pipe reaches EOF only if NO process holds a write end any more: the
+ *                          harness records every close() of the program, and while the program still holds the write end
+ *                          pipe() gave it nothing happens (the event is skipped); otherwise select() reports the pipe
+ *                          readable and read() returns 0 although the child is alive and its wait status is not known
+ *                          (skipped unless the slot has a live child)
+ *           v<ss><wwww>    like x, but the kernel closes the dying child's descriptors before the SIGCHLD is delivered: if the
+ *                          program holds no write end, select() reports the EOF first and the handler runs only when the
+ *                          program unblocks the signal again (start of the next select()); if it does hold one this is x
  *           e              EOF on descriptor 0 (once; later c and e events are skipped: nothing can be read after EOF)
  *           (w is delivered to any slot in use, reaped or not: a reaped child's output may still sit in the pipe)
  *           at the end of the script: EOF on descriptor 0 unless already seen, then, lowest slot first, every slot still in
@@ -22,6 +31,11 @@
  *   trace : ','-separated: o<path-hex> open_read(path) | f<ss>:<sender-hex>:<recip-hex>:<at> spawn() called and child forked
  *           | W<hex> bytes written to descriptor 1 (adjacent writes merged) | q<n> the program called _exit after the
  *           harness had consumed n events of the script (delivered or skipped) | e<code>
+ *           and, not program output but what the world knows (the driver takes them out before comparing with the model and
+ *           feeds them to the oracle "no report before the child's status is known, no crash relayed as success"):
+ *           b<ss> fork() succeeded, a child now runs for delivery ss | r<ss><wwww> wait_nohang() handed the program the status
+ *           wwww of the child that was forked for delivery ss | p<ss><wwww> the program calls report() for delivery ss with
+ *           wait status wwww
  *           (a trace that does not end in e<code> means the program was aborted by a sanitizer while running this case) */
 #include "hcommon.h"
 #include "substdio.h"
@@ -32,7 +46,8 @@
 #define QUID 7777
 static ssize_t h_read(int fd, void *buf, size_t len);
 static ssize_t h_write(int fd, const void *buf, size_t len);
-static int h_close(int fd) { return 0; }
+static unsigned char fd_closed[1024];      /* descriptors the program has closed (pipe ends are never re-used within a case) */
+static int h_close(int fd) { if (fd >= 0 && fd < 1024) fd_closed[fd] = 1; return 0; }
 static int h_chdir(const char *p) { return 0; }
 static int h_pipe(int pi[2]);
 static int h_select(int n, fd_set *r, fd_set *w, fd_set *x, struct timeval *t);
@@ -109,6 +124,9 @@ static const char *sc_p;                 /* rest of the script */
 static unsigned char pend[2048]; static int pend_n, pend_fd;   /* what the next read() of pend_fd returns */
 static int wait_pid_v, wait_stat_v;
 static int npipes, nforks, stdin_eof, nops;
+static int pid_slot[1024];     /* world: which delivery a forked child belongs to */
+static int world_pid[256];     /* world: the child running for a delivery (0 = none), whatever the program believes */
+static int sig_pending;        /* a SIGCHLD that arrived while the signal was blocked: handler runs at the next select() */
 
 static ssize_t h_write(int fd, const void *buf, size_t len) { hbuf_add(&wbuf, buf, len); return len; }
 static ssize_t h_read(int fd, void *buf, size_t len) {
@@ -136,7 +154,13 @@ static int h_pipe(int pi[2]) {
   pi[0] = 100 + 2 * npipes; pi[1] = 101 + 2 * npipes; npipes++;
   return 0;
 }
-static pid_t h_fork(void) { if (cur_plan == 6) { errno = EAGAIN; return -1; } return 1000 + nforks++; }
+static pid_t h_fork(void) {
+  if (cur_plan == 6) { errno = EAGAIN; return -1; }
+  if (nforks >= 1024) { fprintf(stderr, "harness: too many forks\n"); abort(); }
+  pid_slot[nforks] = delnum & 255; world_pid[delnum & 255] = 1000 + nforks;
+  ev_begin('b'); fprintf(h_out, "%02x", delnum & 255);
+  return 1000 + nforks++;
+}
 static int h_spawn(int fdmess, int fdout, char *s, char *r, int at) {
   ev_begin('f'); fprintf(h_out, "%02x:", delnum & 255); h_hex((unsigned char *)s, strlen(s)); fputc(':', h_out);
   h_hex((unsigned char *)r, strlen(r)); fprintf(h_out, ":%d", at);
@@ -145,6 +169,9 @@ static int h_spawn(int fdmess, int fdout, char *s, char *r, int at) {
 static int h_wait_nohang(int *wstat) {
   if (!wait_pid_v) return 0;
   int p = wait_pid_v; *wstat = wait_stat_v; wait_pid_v = 0;
+  int sl = pid_slot[p - 1000];
+  if (world_pid[sl] == p) world_pid[sl] = 0;
+  ev_begin('r'); fprintf(h_out, "%02x%04x", sl, wait_stat_v & 0xffff);
   return p;
 }
 
@@ -158,9 +185,12 @@ static void child_exit(int slot, int wstat, fd_set *r) {
   pend_fd = d[slot].fdin; pend_n = 0; FD_SET(pend_fd, r);
 }
 static void pipe_eof(int slot, fd_set *r) { pend_fd = d[slot].fdin; pend_n = 0; FD_SET(pend_fd, r); }
+/* does the program still hold the write end pipe() gave it for this slot?  (h_pipe: write end = read end + 1) */
+static int holds_wend(int slot) { int w = d[slot].fdin + 1; return w >= 0 && w < 1024 && !fd_closed[w]; }
 static int h_select(int n, fd_set *r, fd_set *w, fd_set *x, struct timeval *t) {
   fd_set asked = *r;
   FD_ZERO(r);
+  if (sig_pending) { sig_pending = 0; sigchld(); }     /* sig_childunblock(): the blocked SIGCHLD is delivered now */
   for (;;) {
     if (!*sc_p) {                     /* script exhausted: close descriptor 0, then finish every slot still in use */
       if (!stdin_eof) { stdin_eof = 1; pend_fd = 0; pend_n = 0; FD_SET(0, r); break; }
@@ -187,9 +217,24 @@ static int h_select(int n, fd_set *r, fd_set *w, fd_set *x, struct timeval *t) {
       if (!inuse(slot) || pend_n == 0) continue;
       pend_fd = d[slot].fdin; FD_SET(pend_fd, r); break;
     }
-    if (op == 'x' || op == 'k') {
-      int ws = 0; for (int k = 0; k < 4; k++) ws = ws * 16 + hexv(*sc_p++);
+    if (op == 'y') {
       if (!live(slot)) continue;
+      if (holds_wend(slot)) continue;            /* a write end is still open in the spawner: no EOF */
+      pipe_eof(slot, r); break;
+    }
+    if (op == 'x' || op == 'k' || op == 'v') {
+      int ws = 0; for (int k = 0; k < 4; k++) ws = ws * 16 + hexv(*sc_p++);
+      if (!live(slot)) {
+        /* the program knows of no live child here; if the world does (the program has already written the report and freed
+         * the slot), the child still dies and its status is still handed to the handler, which has no use for it */
+        if (slot < 256 && world_pid[slot] && !inuse(slot)) { wait_pid_v = world_pid[slot]; wait_stat_v = ws; sigchld(); }
+        continue;
+      }
+      if (op == 'v' && !holds_wend(slot)) {      /* EOF visible before the handler has run */
+        wait_pid_v = d[slot].pid; wait_stat_v = ws; sig_pending = 1;
+        pipe_eof(slot, r); break;
+      }
+      if (op == 'v') op = 'x';
       if (op == 'x') { child_exit(slot, ws, r); break; }
       /* the signal interrupts select(): handler, then -1/EINTR; no descriptor is reported */
       wait_pid_v = d[slot].pid; wait_stat_v = ws;
@@ -215,6 +260,8 @@ void __asan_poison_memory_region(void const volatile *addr, size_t size);
 void __asan_unpoison_memory_region(void const volatile *addr, size_t size);
 #endif
 static void h_report(substdio *ss, int wstat, char *s, int len) {
+  { int sl = 255; for (int i = 0; i < auto_spawn; i++) if (d[i].used && d[i].output.s == s) sl = i;
+    ev_begin('p'); fprintf(h_out, "%02x%04x", sl, wstat & 0xffff); }
 #if defined(__SANITIZE_ADDRESS__)
   unsigned int a = 0;
   for (int i = 0; i < auto_spawn; i++) if (d[i].used && d[i].output.s == s) a = d[i].output.a;
@@ -230,6 +277,7 @@ static void one(const char *script, const unsigned char *plan, size_t pn) {
   fprintf(h_out, "S %c ", KIND); h_hex(plan, pn); fprintf(h_out, " %s ", *script ? script : "-");
   plan_p = plan; plan_n = pn; plan_pos = 0; cur_plan = 0;
   sc_p = script; pend_fd = -1; wait_pid_v = 0; npipes = nforks = stdin_eof = nops = 0;
+  memset(fd_closed, 0, sizeof fd_closed); memset(world_pid, 0, sizeof world_pid); sig_pending = 0;
   flagwriting = 1; flagreading = 1; stage = 0; flagabort = 0; delnum = 0;
   first_ev = 1; wbuf.n = 0;
   static char *av[] = { "qmail-xspawn", "./Mailbox", 0 };
@@ -254,6 +302,8 @@ static void s_exit(int slot, int ws) { char t[16]; s_sep(); sprintf(t, "x%02x%04
 static void s_reap(int slot, int ws) { char t[16]; s_sep(); sprintf(t, "k%02x%04x", slot & 255, ws & 0xffff); hbuf_add(&sb, t, 7); }
 static void s_peof(int slot) { char t[16]; s_sep(); sprintf(t, "z%02x", slot & 255); hbuf_add(&sb, t, 3); }
 static void s_eof(void) { s_sep(); hbuf_add(&sb, "e", 1); }
+static void s_cclose(int slot) { char t[16]; s_sep(); sprintf(t, "y%02x", slot & 255); hbuf_add(&sb, t, 3); }
+static void s_exit_eof_first(int slot, int ws) { char t[16]; s_sep(); sprintf(t, "v%02x%04x", slot & 255, ws & 0xffff); hbuf_add(&sb, t, 7); }
 static const char *s_str(void) { hbuf_add(&sb, "", 1); sb.n--; return (const char *)sb.p; }
 
 static size_t mkcmd(unsigned char *b, int delnum, const char *mid, size_t ml, const char *snd, const char *rcp) {
@@ -358,6 +408,31 @@ int main(int argc, char **argv) {
       }
     }
   }
+  /* (6) the report must reflect how the child ended, whatever the child does with its output descriptors: slot 0 is first used
+   *     by an ordinary delivery (child writes a success report, exits 0), then a second delivery in the same slot whose child
+   *     writes a complete success report; then every sequence of up to <level> events over { the child closes its output
+   *     descriptors and lives on (y), it is killed by a signal / exits 111 / exits 100 / exits 0 - seen as SIGCHLD then EOF in one
+   *     wake-up (x), as EOF before SIGCHLD (v), or reaped while in select (k) with the EOF later (z) -, end of input }: all orders
+   *     of EOF-on-pipe vs SIGCHLD.  Also with a crashed first delivery (stale status the other way round). */
+  {
+    static const char *const evs6[12] = { "y00", "x00000b", "x006f00", "v00000b", "v006f00", "v000000", "k00000b", "k006400", "z00", "e",
+                                          "x000000", "w004b6c6174650a00" };
+    static const unsigned char okrep[] = "r192.0.2.1 accepted message.\n\0K192.0.2.1 accepted message.\nRemote host said: 250 ok\n";
+    size_t n1 = mkcmd(cb, 0, "0/77", 4, "s@h", "r@h");
+    for (int first = 0; first < 2; first++)
+      for (int len = 0; len <= level; len++) {
+        uint64_t total = 1; for (int i = 0; i < len; i++) total *= 12;
+        if (first && len > 2) break;
+        for (uint64_t k = 0; k < total; k++, id++) {
+          if ((int)(id % nshards) != shard) continue;
+          s_reset(); s_cmd(cb, n1); s_out(0, okrep, sizeof okrep); s_exit(0, first ? 0x000b : 0);
+          s_cmd(cb, n1); s_out(0, okrep, sizeof okrep);
+          uint64_t v = k;
+          for (int i = 0; i < len; i++, v /= 12) { s_sep(); hbuf_add(&sb, evs6[v % 12], strlen(evs6[v % 12])); }
+          one(s_str(), 0, 0);
+        }
+      }
+  }
   /* (4) seeded random sessions: several commands (mostly valid) cut into arbitrary reads, truncated at end of input,
    *     oversized fields, re-used delivery numbers, children writing hostile / long output and exiting in any order -
    *     reaped and reported in one wake-up (x) or reaped first (k) with the EOF on the pipe (z) arriving any time later,
@@ -402,10 +477,11 @@ int main(int argc, char **argv) {
           else if (ok == 5) { ol = 2900 + h_below(400); for (size_t i = 0; i < ol; i++) o[i] = h_below(30) ? 'a' + h_below(26) : '\n'; }
           else { ol = h_below(300); for (size_t i = 0; i < ol; i++) o[i] = h_below(20) ? 32 + h_below(95) : h_below(256); o[ol++] = 0; }
           s_out(slot, o, ol);
+          if (!h_below(4)) s_cclose(slot);           /* output descriptors closed, the child lives on */
           if (h_below(3)) {
             int ws = h_below(4) ? 0 : h_below(3) ? (int)(h_below(256) << 8) : (int)h_below(128);
             int how = h_below(4);
-            if (how < 2) s_exit(slot, ws);
+            if (how < 2) { if (h_below(3)) s_exit(slot, ws); else s_exit_eof_first(slot, ws); }
             else { s_reap(slot, ws); if (how == 2) s_peof(slot); else if (nz < 8) zs[nz++] = slot; }
           }
           if (nz && !h_below(3)) { int q = h_below(nz); s_peof(zs[q]); zs[q] = zs[--nz]; }
